@@ -354,13 +354,19 @@ def run(check, tier):
                          {"symbolic_chars": k, "preprocessor": pre}, ("parsed",)))
     for j in jobs:
         driver.register(j[0], j[1], on_path)
+    import os
+    if os.environ.get("C01_ONLY"):          # development aid: run one part only
+        jobs = [j for j in jobs if j[0].startswith(os.environ["C01_ONLY"])]
     for name, _h, title, bounds, req in jobs:
         st, acc = driver.explore(name, time_limit=tl)
         check.section(title, st, acc, bounds, tags_required=req)
         cands.extend(acc.candidates)
-    from . import C01_time
+    from . import C01_time, C01_py
     C01_time.run(check, tier, cands)
     check.confirm(cands, make_replay, classify)
+    pycands = []
+    C01_py.run(check, tier, pycands)
+    check.confirm(pycands, C01_py.make_replay, classify)
     driver.close_pool()
     realproc.shutdown()
 
